@@ -396,6 +396,18 @@ def handleConfigID (idx : Index) (path : Bytes) : IdRes :=
       | some expanded => .redirect (pathJoin (expanded :: rest))
   | _ => .badRequest
 
+/-- the paths `handleConfigID` alone would produce from `p`, ignoring the gate and the mux (an
+    over-approximation of the real redirect chain); `none` = longer than `n` hops.  Used by the
+    driver and the harness to keep cyclic indexes (on which the Go code recurses for ever) out of
+    the protocol, and by `serve_never_runs_out_of_fuel`. -/
+def idChain (idx : Index) : Nat → Bytes → Option (List Bytes)
+  | 0, p => match handleConfigID idx p with
+    | .redirect _ => none
+    | _ => some [p]
+  | n + 1, p => match handleConfigID idx p with
+    | .redirect np => (idChain idx n np).map (p :: ·)
+    | _ => some [p]
+
 -- ---------------------------------------------------------------- serveHTTP
 /-- one invocation of a registered handler: which route, with which `r.URL.Path` -/
 structure Dispatch where
